@@ -48,6 +48,16 @@ CHECKS = {
              'availabilityStartTime monotonicity) are evaluated on pairs from the real timing layer and from real manifests, and for '
              'patches the T1 document is patched with the response to its PatchLocation at T2 and compared with the full T2 manifest.',
         note='Trusted: TLC, lxml, the minimal replace-only XML-patch applier. Known finding C09-patch-symbolic-start-rollover.', design='4 C09'),
+    'C12': dict(
+        technique='TLA+ spec MultiPeriod.tla over LiveWindow: TLC on period tiling (vod, live loop) and period-relative segment mapping; real '
+                  'multi-period manifests and /mps media responses compared with stored files, validated by TLC',
+        text='TLC checks for every source offset, period list, clock and depth of the grid that listed Periods are contiguous, cover the '
+             'time-shift window, have unique ids, and that number n maps to the n-th source segment from the one nearest the Period offset with '
+             'decode times from zero and 404 beyond the source; three multi-period definitions over the fixture streams are then requested '
+             '(vod, live at several clocks), every admitted number, one past the source end and the init segments fetched, and TLC judges '
+             'the projections (payload identity by the independent walker).',
+        note='Trusted: TLC, lxml, walker/stored scan. $Number$ addressing only (as the property states); period offsets outside the last half of the last source segment.',
+        design='4 C12'),
     'C13': dict(
         technique='TLA+ spec HttpRange.tla (RFC 7233 single-range semantics): TLC exhaustive small scope; emitted table replayed on the '
                   'real get_http_range; real range requests on every range-capable URL kind; TLC trace validation',
